@@ -107,6 +107,15 @@ def block_size(analysis: Analysis, res: RuleResult) -> None:
     res.add("C09-R2", "ota:FIRMWARE_BLOCK_SIZE is 16", okc, "mysensors/ota.py", f"{unparse(const) if const is not None else None}")
     info = analysis.p.func("ota:OTAFirmware.respond_fw")
     found = False
+    blk_name = rec_name = None
+    for n in ast.walk(info.node):
+        if isinstance(n, ast.Assign) and isinstance(n.value, ast.Call) and isinstance(n.targets[0], (ast.Tuple, ast.List)):
+            fn = unparse(n.value.func)
+            names = [unparse(e) for e in n.targets[0].elts]
+            if fn == "fw_hex_to_int" and len(names) == 3:
+                blk_name = names[2]
+            if fn.endswith("._get_fw") and len(names) == 3:
+                rec_name = names[2]
     for n in ast.walk(info.node):
         if isinstance(n, ast.Subscript) and isinstance(n.slice, ast.Slice) and n.slice.lower is not None and n.slice.upper is not None:
             lo, hi = n.slice.lower, n.slice.upper
@@ -117,9 +126,9 @@ def block_size(analysis: Analysis, res: RuleResult) -> None:
                     i, s = s, i
                 ok = s == "FIRMWARE_BLOCK_SIZE" and unparse(hi).replace(" ", "") in (f"{unparse(lo)}+{s}".replace(" ", ""), f"({i}+1)*{s}".replace(" ", "")) and n.slice.step is None
                 res.add("C09-R2", "ota:OTAFirmware.respond_fw / block slice is [i*S : i*S + S] with S the block size", ok, common.where(analysis, info, n), unparse(n.slice))
-                idx_ok = i == "req_blk"
+                idx_ok = blk_name is not None and i == blk_name
                 res.add("C09-R1", "ota:OTAFirmware.respond_fw / the slice index is the requested block index", idx_ok, common.where(analysis, info, n), f"index {i}")
-                src_ok = unparse(n.value).replace('"', "'") == "fware['data']"
+                src_ok = rec_name is not None and unparse(n.value).replace('"', "'") == f"{rec_name}['data']"
                 res.add("C09-R3", "ota:OTAFirmware.respond_fw / blocks are cut from the record's data", src_ok, common.where(analysis, info, n), unparse(n.value))
     if not found:
         raise AnalysisError("C09-R2: block slice in respond_fw not recognised")
@@ -159,11 +168,23 @@ def single_source(analysis: Analysis, res: RuleResult) -> None:
         lines_assign = [n.lineno for n in ast.walk(prep.node) if isinstance(n, (ast.Assign, ast.AugAssign)) and any(unparse(t) == name for t in (n.targets if isinstance(n, ast.Assign) else [n.target]))]
         okp = all(l < rec.lineno for l in lines_assign)
         res.add("C09-R3", "ota:prepare_fw / the record is built from the padded image", okp and bool(lines_assign), common.where(analysis, prep, rec), "padding precedes the record")
+    # the padded value must be the input plus appended bytes only
+    arg = prep.node.args.args[0].arg
+    odd = []
+    for n in ast.walk(prep.node):
+        if isinstance(n, ast.Assign) and any(unparse(t) == arg for t in n.targets):
+            v = n.value
+            ok_form = isinstance(v, ast.BinOp) and isinstance(v.op, ast.Add) and unparse(v.left) == arg
+            if not ok_form:
+                odd.append(unparse(n)[:70])
+        elif isinstance(n, ast.AugAssign) and unparse(n.target) == arg and not isinstance(n.op, ast.Add):
+            odd.append(unparse(n)[:70])
+    res.add("C09-R3", "ota:prepare_fw / the image is changed only by appending padding", not odd, common.where(analysis, prep, prep.node), "only `+=` of pad bytes" if not odd else f"the image is rewritten before it is stored: {odd}")
     # keys read elsewhere
     read = set()
     mod = analysis.p.modules["ota"]
     for n in ast.walk(mod.tree):
-        if isinstance(n, ast.Subscript) and isinstance(n.value, ast.Name) and n.value.id == "fware" and isinstance(n.slice, ast.Constant):
+        if isinstance(n, ast.Subscript) and isinstance(n.value, ast.Name) and n.value.id.startswith("fware") and isinstance(n.slice, ast.Constant) and isinstance(n.ctx, ast.Load):
             read.add(n.slice.value)
     res.add("C09-R3", "ota / record keys read are the keys written", read <= set(keys) and read >= {"data", "blocks", "crc"}, "mysensors/ota.py", f"read {sorted(read)} written {sorted(keys)}")
     crc = analysis.p.func("ota:compute_crc")
